@@ -31,18 +31,26 @@ def group_defined(ver, m, group):
     return any(m.get(k, nd) != nd for k in T.GROUPS[ver][group])
 
 
-def check_object(P, ver, s, deep=True, after=None):
-    """after: vectors constructed and serialised in this process just before (kept in the witness)."""
+def check_object(P, ver, s, deep=True, after=None, built=None):
+    """after: vectors constructed and serialised in this process just before (kept in the witness);
+    built: how the judged object is obtained (obs.build): None = the constructor, else a copy / pickle / ..."""
     P.remember({"ver": ver, "vector": s})
     L = lib()
     P.evaluations += 1
     case = {"ver": ver, "vector": s}
     if after:
         case["after"] = list(after)
-    ok, o = obs.call(L.CLS[ver], s)
+    if built:
+        case["built"] = built
+    ok, o = obs.call(obs.build, L, ver, s, built)
     if not ok:
         P.violation("construct", "C09:v%s:exception:%s" % (ver, obs.exc_name(o)), case, error=repr(o))
         return
+    if o is None:
+        P.stratum("object-not-obtainable-by:" + str(built))
+        return
+    if built:
+        P.stratum("object-obtained-by:" + built)
     judge_object(P, ver, o, s, deep, case)
 
 
@@ -143,7 +151,7 @@ def warm(ver, s):
 def check_case(P, case):
     for s in case.get("after") or []:
         warm(case["ver"], s)
-    check_object(P, case["ver"], case["vector"], deep=True, after=case.get("after"))
+    check_object(P, case["ver"], case["vector"], deep=True, after=case.get("after"), built=case.get("built"))
 
 
 def check_minor_twin(P, s):
@@ -178,6 +186,8 @@ def shard_v3(P, minor, av, mode, seed):
                 check_object(P, "3", s, deep=(k % 7 == 0))
                 if k % 7 == 0:
                     check_minor_twin(P, s)
+                if k % 11 == 0:
+                    check_object(P, "3", s, deep=True, built=obs.BUILT[(k // 11) % len(obs.BUILT)])
     P.distinct_n += k
     P.sample({"ver": "3", "vector": s}, cap=2)
 
@@ -245,6 +255,8 @@ def shard_random(P, ver, idx, n, seed):
         p, m, s = V.rand_vector(rng, ver, p_opt=rng.choice((0.1, 0.5, 0.9)))
         P.dist(s)
         check_object(P, ver, s, deep=True)
+        if j % 2 == 0:
+            check_object(P, ver, s, deep=True, built=obs.BUILT[(j // 2) % len(obs.BUILT)])
         if ver == "3" and j % 3 == 0:
             check_minor_twin(P, s)
 
